@@ -4,7 +4,7 @@ CONSTANTS
   AuthOn = TRUE
   KF_FlagsSurviveTls = FALSE
   KF_BufferSurvivesTls = FALSE
-  KF_BareArg421 = FALSE
+  KF_BareArg421 = TRUE
   KF_PlainAuthNoTls = FALSE
 INVARIANT C07_Order
 INVARIANT C07_NoCallbackOnError
